@@ -69,17 +69,12 @@ def rule_no_shared_state(ctx):
 
 
 def rule_command_line_reader_per_file(ctx):
-    """O8.4: CutplaceApp.validate builds a new Reader for each data path (so O8.1 covers the command line)."""
-    model = ctx.model
-    info = model.func("cutplace.applications.CutplaceApp.validate")
-    readers = [n for n in walk_own(info.node) if isinstance(n, ast.Call) and ast.unparse(n.func).endswith("Reader")]
-    ok = len(readers) == 1 and len(readers[0].args) >= 2 and ast.unparse(readers[0].args[0]) == "self.cid" \
-        and isinstance(readers[0].args[1], ast.Name) and readers[0].args[1].id == info.node.args.args[1].arg
-    if ok:
-        ctx.res.ok("O8.4", "CutplaceApp.validate constructs a fresh Reader(self.cid, data_path, ...) per data path", True)
-    else:
-        ctx.res.fail("O8.4", "fresh Reader per data path", "applications.CutplaceApp.validate:O8.4:reader",
-                     where_of(model, info.qualname), "CutplaceApp.validate does not build exactly one Reader(self.cid, <data path>) per call")
+    """O8.4: the command line builds a fresh Reader on the shared CID for each data path (C18's process table)."""
+    from .c18 import rule_process
+
+    rule_process(ctx)
+    ctx.res.rule_instances["O8.4"] = ctx.res.rule_instances.get("O18.2", 0)
+    ctx.res.minimum("O8.4", 1)
 
 
 RULES = [rule_histories, rule_reset_complete, rule_no_shared_state, rule_command_line_reader_per_file]
